@@ -5,6 +5,9 @@ import (
 	_ "github.com/saucelabs/forwarder/verifharness/c01"
 	_ "github.com/saucelabs/forwarder/verifharness/c02"
 	_ "github.com/saucelabs/forwarder/verifharness/c03"
+	_ "github.com/saucelabs/forwarder/verifharness/c04"
+	_ "github.com/saucelabs/forwarder/verifharness/c05"
+	_ "github.com/saucelabs/forwarder/verifharness/c06"
 	_ "github.com/saucelabs/forwarder/verifharness/c07"
 	_ "github.com/saucelabs/forwarder/verifharness/c08"
 	_ "github.com/saucelabs/forwarder/verifharness/c09"
